@@ -169,6 +169,10 @@ pub fn run(repo: &Path) -> String {
     // the change it is meant for exists)
     let mut sched_last: Vec<(String, bool)> = Vec::new();
     let mut methods: Vec<(String, Vec<String>)> = Vec::new();
+    // per method: the calls on the two persisted stores of the publication server (`self.content.…` =
+    // WAL store pubd_objects, `self.access.…` = aggregate store pubd) in source order
+    let mut store_calls: Vec<(String, Vec<String>)> = Vec::new();
+    let mut store_ctors: Vec<String> = Vec::new();
     for item in &pubd.items {
         if let syn::Item::Impl(imp) = item {
             if compact(&imp.self_ty) != "RepositoryManager" {
@@ -187,6 +191,26 @@ pub fn run(repo: &Path) -> String {
                         _ => true,
                     };
                     sched_last.push((f.sig.ident.to_string(), ok));
+                    let mut calls: Vec<(usize, String)> = Vec::new();
+                    for (prefix, kind) in [("self.content.", "content"), ("self.access.", "access")] {
+                        let mut from = 0;
+                        while let Some(i) = body[from..].find(prefix) {
+                            let start = from + i + prefix.len();
+                            let name: String = body[start..].chars().take_while(|c| c.is_alphanumeric() || *c == '_').collect();
+                            if !name.is_empty() && body[start + name.len()..].starts_with('(') {
+                                calls.push((from + i, format!("{kind}_{name}")));
+                            }
+                            from = start;
+                        }
+                    }
+                    calls.sort();
+                    let calls: Vec<String> = calls.into_iter().map(|c| c.1).collect();
+                    for c in &calls {
+                        if !store_ctors.contains(c) {
+                            store_ctors.push(c.clone());
+                        }
+                    }
+                    store_calls.push((f.sig.ident.to_string(), calls));
                 }
             }
         }
@@ -206,6 +230,18 @@ pub fn run(repo: &Path) -> String {
     out.push_str("def pubdScheduleAfterChange : PubdMethod → Bool\n");
     for (m, ok) in &sched_last {
         out.push_str(&format!("  | .{} => {ok}\n", lean_ident(m)));
+    }
+    store_ctors.sort();
+    out.push_str("\n/-- Calls on the publication server's two persisted stores: `content_<m>` = `self.content.<m>(…)` (WAL store\n`pubd_objects`), `access_<m>` = `self.access.<m>(…)` (aggregate store `pubd`). -/\ninductive PubdStoreCall where\n");
+    for c in &store_ctors {
+        out.push_str(&format!("  | {}\n", lean_ident(c)));
+    }
+    out.push_str("deriving DecidableEq, Repr\n\n");
+    out.push_str("/-- The store calls of each `RepositoryManager` method in source order. -/\n");
+    out.push_str("def pubdStoreCalls : PubdMethod → List PubdStoreCall\n");
+    for (m, cs) in &store_calls {
+        let l = cs.iter().map(|c| format!(".{}", lean_ident(c))).collect::<Vec<_>>().join(", ");
+        out.push_str(&format!("  | .{} => [{l}]\n", lean_ident(m)));
     }
     out.push_str("\nend KM.Generated\n");
     out
